@@ -70,11 +70,12 @@ def case_st(draw):
     elif regime == "deep" and case["ndim"] == 3:
         # levels beyond 14, the deepest cells hugging a coarse cube boundary from below
         case["levelmin"] = draw(st.sampled_from([2, 3]))
-        case["levelmax"] = draw(st.sampled_from([15, 16, 17, 19, 20, 21]))
+        case["levelmax"] = draw(st.sampled_from([15, 16, 17, 19, 20, 21, 21, 21]))
         case["refine_p"] = [0.0]
         case["deep_toward"] = [draw(st.sampled_from([0.25, 0.5, 0.75])) for _ in range(3)]
         case["ncpu"] = draw(st.integers(3, 9))
         case["key_mode"] = draw(st.sampled_from(["uniform", "random", "cube"]))
+        case["key_format"] = draw(st.sampled_from(["e23.15", "e23.15", None]))
         case["nboundary"] = 0
     if case["ndim"] < 3 and draw(st.integers(0, 3)) > 0:
         # 1-D / 2-D outputs with a Hilbert decomposition: the pre-selection only knows the 3-D curve and must not restrict
@@ -111,6 +112,8 @@ def selective(case, r):
         exp_all = rm.expected_mesh(m)
         ndim = case["ndim"]
         r.label(f"ndim_{ndim}", "ordering_" + case["ordering"], "keys_" + case["key_mode"], "regime_" + case.get("regime", "std"))
+        if case.get("key_format") == "e23.15" and ndim * (case["levelmax"] + 1) >= 50:
+            r.label("bound_keys_printed_with_fewer_digits_than_they_have")
         for spec in case["preds"]:
             res = rs.resolve(spec, m, exp_all)
             keep = rs.mask(res, m, exp_all)
